@@ -213,7 +213,7 @@ Definition release_ips (s : ipam) (m : list (N * str)) (order : list N) (nfail :
 
 (** pick phase of AllocateInSubnetsAndIPRange: for each range list the first address in walk
     order that is free, routable from [sn] and not picked before *)
-Fixpoint first_in_ranges (f : N -> bool) (fuel : nat) (rs : list range) : option (option N) :=
+Fixpoint first_in_ranges (f : N -> bool) (fuel : nat) (rs : list range) {struct rs} : option (option N) :=
   match rs with
   | [] => Some None
   | r :: rest =>
@@ -243,19 +243,26 @@ Fixpoint pick_ips (s : ipam) (sn : subnet) (rss : list (list range)) (picked : l
       end
   end.
 
+(** create phase: returns the store reached, the objects created so far, and whether all were created *)
 Fixpoint create_all (st : gmap N entry) (key : str) (a : attr) (t : N) (ips : list N) (nfail : option nat)
-  : option (gmap N entry) :=
+  : gmap N entry * list N * bool :=
   match ips with
-  | [] => Some st
+  | [] => (st, [], true)
   | ip :: rest =>
       match nfail with
-      | Some O => None
+      | Some O => (st, [], false)
       | _ => match st_create st ip (mk_entry key a false t) with
-             | Some st' => create_all st' key a t rest (match nfail with Some (S n) => Some n | _ => None end)
-             | None => None
+             | Some st' =>
+                 let '(st'', created, ok) :=
+                   create_all st' key a t rest (match nfail with Some (S n) => Some n | _ => None end) in
+                 (st'', ip :: created, ok)
+             | None => (st, [], false)
              end
       end
   end.
+(** rollback: delete what was created, in creation order; errors are only logged *)
+Definition rollback (st : gmap N entry) (created : list N) : gmap N entry :=
+  fold_left (fun st ip => delete ip st) created st.
 
 (** AllocateInSubnetsAndIPRange with a non-empty request: all or nothing.  A failed Create
     (injected, or AlreadyExists because of a reservation not yet seen) deletes the objects
@@ -266,8 +273,8 @@ Definition alloc_ranges (s : ipam) (key : str) (sn : subnet) (rss : list (list r
   | None => (s, ANoIP, [])
   | Some ips =>
       match create_all (i_store s) key a (i_clock s) ips nfail with
-      | None => (s, AErr, [])                (* rollback: the store is as before *)
-      | Some st =>
+      | (st, created, false) => (set_store s (rollback st created), AErr, [])
+      | (st, _, true) =>
           (tick (fold_left (fun s' ip => mem_create s' ip (mk_entry key a false (i_clock s))) ips (set_store s st)),
            AOk, ips)
       end
@@ -337,11 +344,17 @@ Definition admin_unreserve (s : ipam) (ip : N) : ipam :=
 Definition unpend (s : ipam) (ip : N) : ipam :=
   {| i_store := i_store s; i_alloc := i_alloc s; i_unalloc := i_unalloc s; i_pools := i_pools s;
      i_clock := i_clock s; i_pending := i_pending s ∖ {[ip]} |}.
+(** handleFIPUnassign *)
+Definition del_event (f11 : bool) (s : ipam) (ip : N) : ipam * ares :=
+  match i_alloc s !! ip with
+  | Some e => if (negb f11 || e_reserved e)%bool then (mem_del (unpend s ip) ip, AOk) else (unpend s ip, AErr)
+  | None => (unpend s ip, AErr)
+  end.
 Definition watch_deliver (f11 : bool) (s : ipam) (ip : N) : ipam * ares :=
   if decide (ip ∈ i_pending s) then
     match i_store s !! ip with
-    | Some o =>                                                     (* add event *)
-        if e_reserved o then
+    | Some o =>
+        if e_reserved o then                                        (* add event of the reservation *)
           match i_alloc s !! ip with
           | Some _ => (unpend s ip, AErr)
           | None => if decide (ip ∈ i_unalloc s)
@@ -350,12 +363,8 @@ Definition watch_deliver (f11 : bool) (s : ipam) (ip : N) : ipam * ares :=
                                      e_reserved := true; e_time := i_clock s |}), AOk)
                     else (unpend s ip, AErr)
           end
-        else (unpend s ip, AOk)
-    | None =>                                                        (* delete event *)
-        match i_alloc s !! ip with
-        | Some e => if (negb f11 || e_reserved e)%bool then (mem_del (unpend s ip) ip, AOk) else (unpend s ip, AErr)
-        | None => (unpend s ip, AErr)
-        end
+        else del_event f11 s ip        (* the reservation was deleted and the IP re-allocated since: stale delete event *)
+    | None => del_event f11 s ip                                     (* delete event *)
     end
   else (s, AStuck).
 
@@ -412,7 +421,7 @@ Definition ipam0 : ipam := {| i_store := ∅; i_alloc := ∅; i_unalloc := ∅; 
 (** * operations as data: histories are lists of [op] *)
 Inductive op :=
 | OConfigure (conf : list json) (listfail : bool) (delfail : list N)   (* reload: decode, then ConfigurePool *)
-| ORestart
+| ORestart (conf : list json)                                         (* new process: Init = decode + ConfigurePool *)
 | OAllocSpecific (key : str) (ip : N) (a : attr) (fail : bool)
 | OAllocInSubnet (key : str) (sn : subnet) (a : attr) (choice : option N) (fail : bool)
 | OAllocWithKey (oldk newk : str) (sn : subnet) (a : attr) (choice : option N) (fail : bool)
@@ -442,7 +451,10 @@ Definition step (s : ipam) (o : op) : ipam * ares * list N :=
       | None => (s, AErr, [])                         (* a rejected configuration changes nothing *)
       | Some ps => let r := configure s ps listfail (list_to_set delfail) in (fst r, snd r, [])
       end
-  | ORestart => (restart s (i_pools s), AOk, [])
+  | ORestart conf => match decode_pools conf with
+                     | None => (s, AErr, [])
+                     | Some ps => (restart s ps, AOk, [])
+                     end
   | OAllocSpecific key ip a fail => let r := alloc_specific s key ip a fail in (fst r, snd r, [])
   | OAllocInSubnet key sn a choice fail =>
       let r := alloc_in_subnet s key sn a choice fail in
